@@ -61,6 +61,51 @@ bool applyEdit(NifFile& nif, const json& st, Ctx& ctx, NifFile* other) {
 		ctx.probe("edit_set_texture");
 		return true;
 	}
+	if (op == "SetTexturePath") {
+		// a texture path assembled from a small grammar (prefixes, nested folders named textures/data, separators,
+		// whitespace, case): what other tools and users put into files
+		if (!shape) return false;
+		static const char* prefix[] = {"", "Data\\", "data\\Textures\\", "C:\\Games\\Data\\textures\\", "\\", "textures\\", "..\\textures\\", " ", "/data/textures/", "Data\\Textures\\armor\\mod\\textures\\"};
+		static const char* mid[] = {"", "armor\\", "textures\\", "a\\\\b\\", "mod/sub/", "Textures\\x\\", "data\\", "  ", "landscape\\lod\\"};
+		static const char* leaf[] = {"cuirass.dds", "t_n.dds", "x.DDS", "tex .dds ", "", "noext", "a.b.c.dds"};
+		std::string path = std::string(prefix[r.below(10)]) + mid[r.below(9)] + (r.chance(0.3) ? mid[r.below(9)] : "") + leaf[r.below(7)];
+		nif.SetTextureSlot(shape, path, uint32_t(salt % 3));
+		ctx.probe("edit_set_texture_path_from_grammar");
+		return true;
+	}
+	// edits made through the shape object itself (NiShape virtuals reach the geometry through the shape's own link to its data)
+	if (op == "ShapeSetTriangles") {
+		if (!shape) return false;
+		std::vector<Triangle> t;
+		if (!shape->GetTriangles(t) || t.size() < 2 || shape->HasType<NiTriStrips>()) return false;
+		if (r.chance(0.5)) t.pop_back();
+		else std::reverse(t.begin(), t.end());
+		shape->SetTriangles(t);
+		ctx.probe("edit_through_shape_object");
+		return true;
+	}
+	if (op == "ShapeSetBounds") {
+		if (!shape) return false;
+		BoundingSphere b;
+		b.center = Vector3(r.range(-9.f, 9.f), r.range(-9.f, 9.f), r.range(-9.f, 9.f));
+		b.radius = r.range(1.f, 50.f);
+		shape->SetBounds(b);
+		ctx.probe("edit_through_shape_object");
+		return true;
+	}
+	if (op == "ShapeToggleColors") {
+		if (!shape || shape->GetNumVertices() == 0) return false;
+		shape->SetVertexColors(!shape->HasVertexColors());
+		ctx.probe("edit_through_shape_object");
+		return true;
+	}
+	if (op == "ShapeUpdateBounds") {
+		if (!shape || shape->GetNumVertices() == 0) return false;
+		nif.MoveVertex(shape, Vector3(r.range(-30.f, 30.f), r.range(-30.f, 30.f), r.range(-30.f, 30.f)), int(salt % shape->GetNumVertices()));
+		shape->UpdateBounds();
+		ctx.probe("edit_through_shape_object");
+		return true;
+	}
 	if (op == "OffsetShape") {
 		if (!shape) return false;
 		nif.OffsetShape(shape, Vector3(1.0f, 0.5f, -0.25f));
@@ -188,7 +233,7 @@ const std::vector<std::string>& editOps() {
 	static std::vector<std::string> v = {"DeleteVerts", "AddNode", "DeleteNode", "DeleteShape", "RenameShape", "SetTexture", "OffsetShape", "MoveVertex",
 										 "SetNodeTransform", "SetNodeName", "AddExtraData", "AddLooseBlock", "CloneShape", "AddShape", "CalcNormals", "CalcTangents",
 										 "InvertUVs", "UpdateSkinPartitions", "DeleteSkinning", "DeleteShader", "AlphaProperty", "SetParentNode", "PrettySort",
-										 "Optimize", "TrimTexturePaths", "FixBSXFlags", "FixShaderFlags", "DeleteUnreferenced", "OptimizeFor"};
+										 "Optimize", "TrimTexturePaths", "FixBSXFlags", "FixShaderFlags", "DeleteUnreferenced", "OptimizeFor", "ShapeSetTriangles", "ShapeSetBounds", "ShapeToggleColors", "ShapeUpdateBounds", "SetTexturePath"};
 	return v;
 }
 
